@@ -2,12 +2,16 @@
    for the correspondence driver ocaml/drv_wire2_ndisc.ml.  ExtrOcamlBasic only; Z, positive,
    nat stay the extracted inductive types. *)
 From Coq Require Extraction ExtrOcamlBasic.
-From SV Require Import Lib.Base Model.WireBase Model.WireIpv6 Model.WireNdiscOpt.
+From SV Require Import Lib.Base Model.WireBase Model.WireIpv6 Model.WireIcmpv6Hdr Model.WireNdiscOpt Model.WireNdisc.
 Extraction Language OCaml.
 Cd "../ocaml/gen".
 Extraction "wire2ndisc_model.ml"
   blen wb_pseudo_ok wb_pseudo_fill wb_plain_ok wb_plain_fill
   ndopt_check_len ndopt_new_checked ndopt_option_type ndopt_data_len ndopt_link_layer_addr ndopt_mtu
   ndopt_prefix_len ndopt_prefix_flags ndopt_valid_lifetime ndopt_preferred_lifetime ndopt_prefix
-  ndopt_data ndopt_parse ndopt_buffer_len ndopt_emit ndopt_wf.
+  ndopt_data ndopt_parse ndopt_buffer_len ndopt_emit ndopt_wf
+  icmp6h_check_len icmp6h_payload
+  ndisc_current_hop_limit ndisc_router_flags ndisc_router_lifetime ndisc_reachable_time ndisc_retrans_time
+  ndisc_target_addr ndisc_neighbor_flags ndisc_dest_addr
+  ndisc_parse ndisc_buffer_len ndisc_emit ndisc_icmp_emit ndisc_icmp_parse ndisc_wf.
 Cd "../../coq".
